@@ -13,7 +13,7 @@ bijection onto 1..nparticle, cn >= 0, any number of values >= cn is NOT assumed:
 """
 import z3
 
-from contracts.common import PBC, Traj, min_image
+from contracts.common import PBC_OPAQUE, Traj, min_image_opaque, register_minimg_facts
 from pyvc import arr as A
 from pyvc import sv
 from pyvc.state import cur
@@ -175,3 +175,238 @@ def _replay_reader(case, model, seed):
 
 
 UNITS = [ReadNeighbors()]
+
+
+# =====================================================================================================
+# writers
+
+
+def _sum(xs):
+    acc = 0
+    for x in xs:
+        acc = sv.add(acc, x)
+    return acc
+
+
+def dist_spec(tr, s, i, j, p):
+    D = min_image_opaque(tr, s, i, j, p)
+    return sv.sqrt(_sum([sv.mul(x, x) for x in D]))
+
+
+def _written_file(state):
+    cells = [c for c in state.heap.values() if c.kind == "file" and c.data.get("mode") == "w"]
+    return cells[0].data if len(cells) == 1 else None
+
+
+def _subst(v, pairs):
+    from pyvc.loops import _subst_val
+    return _subst_val(v, pairs)
+
+
+class _Writer(Unit):
+    """common part of the three neighbour writers: symbolic trajectory (T frames, N particles, d in {2,3}), symbolic mask"""
+    module = CN_MOD
+    prop = "C05"
+    summaries = PBC_OPAQUE
+    timeout = 20
+
+    def cases(self):
+        return ["d=2", "d=3"]
+
+    def base_setup(self, ctx, case):
+        d = int(case[2])
+        tr = Traj(ctx, d)
+        p = [ctx.int(f"ppp_{k}") for k in range(d)]
+        for k in range(d):
+            ctx.assume(sv.or_(sv.cmp("==", p[k], 0), sv.cmp("==", p[k], 1)))
+        ppp = A.from_nested(p, "int")
+        from contracts.C02 import _inv_spec
+        ctx.array_fact("HM", lambda s, a, b: sv.zb(sv.cmp("!=", _inv_spec(tr.Hm(sv.SV(s)), d)[0], 0)))
+        register_minimg_facts(ctx, d)
+        return tr, p, ppp
+
+    def frame_particle_items(self, out, s, i):
+        """-> (header lines, row line tokens) of the written file at frame s, particle i; None if the structure is not
+        [for each frame: header text, for each particle: one row]"""
+        from pyvc.text import Block, text_lines
+        f = _written_file(out.state)
+        if f is None or not f.get("closed"):
+            return None
+        items = f["items"]
+        if len(items) != 1 or not isinstance(items[0], Block):
+            return None
+        outer = items[0]
+        fi = outer.at(s)
+        blocks = [x for x in fi if isinstance(x, Block)]
+        texts = [x for x in fi if not isinstance(x, Block)]
+        if len(blocks) != 1 or fi[-1] is not blocks[0] and False:
+            return None
+        inner = blocks[0]
+        return outer, inner, texts, fi
+
+
+class CutoffNeighbors(_Writer):
+    qualname = "cutoffneighbors"
+
+    def setup(self, ctx, case):
+        tr, p, ppp = self.base_setup(ctx, case)
+        rc = ctx.real("r_cut")
+        ctx.assume(rc >= 0)
+        snaps = tr.snapshots()
+        inp = dict(tr=tr, p=p, rc=rc, s=ctx.int("s"), i=ctx.int("i"), t=ctx.int("t"), u=ctx.int("u"), j=ctx.int("j"))
+        return [snaps, rc, ppp, "nb.dat"], {}, inp
+
+    def clause_names(self, case):
+        return ["file-structure:per-frame-header-then-one-row-per-particle", "row:id-and-count-tokens", "row:every-listed-particle-is-within-cutoff-and-not-self",
+                "row:every-other-particle-within-cutoff-is-listed", "row:sorted-by-distance", "row:no-duplicates", "row:self-sorts-first(dropped-by-[1:])"]
+
+    def cutoff(self, inp, s, i, j):
+        return inp["rc"]
+
+    def ensures(self, ctx, case, inp, out):
+        from pyvc.text import Block, Run, Tok, text_lines
+        tr, p, s, i, t, u, j = inp["tr"], inp["p"], inp["s"], inp["i"], inp["t"], inp["u"], inp["j"]
+        T, N = tr.T, tr.N
+        names = self.clause_names(case)
+        got = self.frame_particle_items(out, s, i)
+        ok = got is not None
+        if ok:
+            outer, inner, texts, fi = got
+            ok = (sv.is_conc(outer.lo) and outer.lo == 0 and A.dim_eq_syntactic(outer.hi, T) and sv.is_conc(inner.lo) and inner.lo == 0
+                  and A.dim_eq_syntactic(inner.hi, N) and isinstance(fi[0], type(texts[0])) and fi[-1] is inner)
+        if ok:
+            hl = text_lines(texts)
+            ok = hl == [["id", "cn", "neighborlist"], []]
+        if ok:
+            row = text_lines(inner.at(i))
+            ok = len(row) == 2 and row[1] == [] and len(row[0]) == 3 and isinstance(row[0][0], Tok) and isinstance(row[0][1], Tok) \
+                and isinstance(row[0][2], Run) and row[0][0].kind == "int" and row[0][1].kind == "int" and row[0][2].kind == "int" and row[0][2].sep == " "
+        yield names[0], bool(ok)
+        if not ok:
+            return
+        idtok, cntok, run = row[0]
+        ins = sv.and_(sv.cmp(">=", s, 0), sv.cmp("<", s, T), sv.cmp(">=", i, 0), sv.cmp("<", i, N))
+        CN = cntok.value
+        # relational facts of this iteration (mask selection, argsort), instantiated with the symbolic frame / particle
+        pairs = [(outer.var, sv.znum(s)), (inner.var, sv.znum(i))]
+        qs = [q for q in out.state.qfacts if q[0] == "argsort"]
+        qsel = [q for q in out.state.qfacts if q[0] == "select-increasing"]
+        if not qs or not qsel:
+            for nme in names[1:]:
+                yield nme, False
+            return
+        _, m, key, P, PINV = qs[0]
+        _, cnt, SEL, RANK = qsel[0]
+        key_at = lambda x: _subst(key(x), pairs)
+        P_at = lambda x: _subst(P(x), pairs)
+        PINV_at = lambda x: _subst(PINV(x), pairs)
+        SEL_at = lambda x: _subst(SEL(x), pairs)
+        RANK_at = lambda x: _subst(RANK(x), pairs)
+        m_at = _subst(m, pairs)
+        ident = lambda x: sv.sub(run.fn(x), 1)                 # zero-based particle listed at position x of the row
+        dsp = lambda jj: dist_spec(tr, s, i, jj, p)
+        rcut = lambda jj: self.cutoff(inp, s, i, jj)
+
+        def nocoinc(jj):     # precondition of the statement: distinct particles do not coincide modulo the lattice (instantiated where used)
+            return sv.implies(sv.and_(sv.cmp(">=", jj, 0), sv.cmp("<", jj, N), sv.cmp("!=", jj, i)), sv.cmp(">", dsp(jj), 0))
+
+        def sorted_inst(a, b):   # instance of argsort's order: key(P(a)) <= key(P(b)) for 0 <= a <= b < m
+            return sv.implies(sv.and_(sv.cmp("<=", 0, a), sv.cmp("<=", a, b), sv.cmp("<", b, m_at)), sv.cmp("<=", key_at(P_at(a)), key_at(P_at(b))))
+        # the centre itself sorts first (distance 0, no coincident particle): the sorted selection starts with i
+        head = SEL_at(P_at(0))
+        selffirst = sv.implies(ins, sv.cmp("==", head, i))
+        yield names[1], sv.implies(ins, sv.and_(sv.cmp("==", idtok.value, sv.add(i, 1)), sv.cmp("==", run.n, CN), sv.cmp(">=", CN, 0))), {"assume": [selffirst]}
+        yield "row:self-sorts-first(dropped-by-[1:])", selffirst, {"assume": [sorted_inst(0, PINV_at(RANK_at(i))), nocoinc(head)]}
+        int_t = sv.and_(sv.cmp(">=", t, 0), sv.cmp("<", t, CN))
+        listed = ident(t)
+        yield names[2], sv.implies(sv.and_(ins, int_t), sv.and_(sv.cmp(">=", listed, 0), sv.cmp("<", listed, N), sv.cmp("!=", listed, i),
+                                                           sv.cmp("<=", dsp(listed), rcut(listed)))), {"assume": [selffirst]}
+        inj = sv.and_(sv.cmp(">=", j, 0), sv.cmp("<", j, N), sv.cmp("!=", j, i), sv.cmp("<=", dsp(j), rcut(j)))
+        tw = sv.sub(PINV_at(RANK_at(j)), 1)                    # witness: the position of j in the written row
+        yield names[3], sv.implies(sv.and_(ins, inj), sv.and_(sv.cmp(">=", tw, 0), sv.cmp("<", tw, CN), sv.cmp("==", ident(tw), j))), {"assume": [selffirst]}
+        int_u = sv.and_(sv.cmp(">=", u, 0), sv.cmp("<", u, CN), sv.cmp("<=", t, u))
+        yield names[4], sv.implies(sv.and_(ins, int_t, int_u), sv.cmp("<=", dsp(ident(t)), dsp(ident(u)))), {"assume": [sorted_inst(sv.add(t, 1), sv.add(u, 1))]}
+        yield names[5], sv.implies(sv.and_(ins, int_t, int_u, sv.cmp("!=", t, u)), sv.cmp("!=", ident(t), ident(u)))
+
+    def replay(self, case, clause, model, seed):
+        return _replay_writer(self.qualname, int(case[2]), seed)
+
+
+def _replay_writer(fn_name, d, seed):
+    import importlib
+    import os
+    import shutil
+    import tempfile
+
+    import numpy as np
+    M = importlib.import_module(CN_MOD)
+    RUm = importlib.import_module("PyMatterSim.reader.reader_utils")
+    RD = importlib.import_module(RN)
+    rng = np.random.default_rng(seed + d)
+    tmp = tempfile.mkdtemp(prefix="pyvc-replay-")
+    try:
+        for trial in range(12):
+            N = int(rng.integers(3, 12))
+            T = int(rng.integers(1, 4))
+            K = int(rng.integers(1, 4))
+            types = np.array([1 + (q % K) for q in range(N)])
+            rng.shuffle(types)
+            ppp = np.array([int(rng.integers(0, 2)) for _ in range(d)]) if trial % 3 else np.ones(d, dtype=int)
+            snaps, Hs = [], []
+            for s in range(T):
+                L = rng.uniform(3.0, 6.0, size=d)
+                H = np.diag(L)
+                if trial % 2:
+                    H[1, 0] = rng.uniform(-0.4, 0.4) * L[0]
+                    if d == 3:
+                        H[2, 0] = rng.uniform(-0.3, 0.3) * L[0]
+                        H[2, 1] = rng.uniform(-0.3, 0.3) * L[1]
+                pos = rng.uniform(0, 1, size=(N, d)) @ H
+                Hs.append(H)
+                snaps.append(RUm.SingleSnapshot(timestep=s, nparticle=N, particle_type=types.copy(), positions=pos, boxlength=L.copy(),
+                                                boxbounds=np.column_stack([np.zeros(d), L]), realbounds=None, hmatrix=H))
+            S = RUm.Snapshots(nsnapshots=T, snapshots=snaps)
+            path = os.path.join(tmp, f"nb{trial}.dat")
+            kw = {}
+            if fn_name == "Nnearests":
+                Nn = int(rng.integers(1, N - 1))
+                args = (S, Nn, ppp, path)
+            elif fn_name == "cutoffneighbors":
+                rc = float(rng.uniform(0.8, 2.5))
+                args = (S, rc, ppp, path)
+            else:
+                rcm = rng.uniform(0.8, 2.5, size=(K, K))      # deliberately not symmetric
+                args = (S, rcm, ppp, path)
+            try:
+                getattr(M, fn_name)(*args)
+            except Exception as e:
+                return {"ran": True, "failed": True, "detail": f"raises {type(e).__name__}: {e}", "inputs": {"N": N, "T": T, "d": d}}
+            with open(path) as f:
+                for s in range(T):
+                    got = RD.read_neighbors(f, N, 200)
+                    pos, H = snaps[s].positions, Hs[s]
+                    Hinv = np.linalg.inv(H)
+                    for i in range(N):
+                        m = (pos - pos[i]) @ Hinv
+                        m = m - np.rint(m) * ppp
+                        dist = np.linalg.norm(m @ H, axis=1)
+                        others = [q for q in range(N) if q != i]
+                        if fn_name == "Nnearests":
+                            want = sorted(others, key=lambda q: dist[q])[:Nn]
+                        elif fn_name == "cutoffneighbors":
+                            want = sorted([q for q in others if dist[q] <= rc], key=lambda q: dist[q])
+                        else:
+                            want = sorted([q for q in others if dist[q] <= rcm[types[i] - 1, types[q] - 1]], key=lambda q: dist[q])
+                        cn = int(got[i, 0])
+                        lst = [int(x) for x in got[i, 1:1 + cn]]
+                        if lst != want:
+                            return {"ran": True, "failed": True, "searched": trial + 1,
+                                    "inputs": {"function": fn_name, "d": d, "N": N, "T": T, "frame": s, "particle": i, "ppp": ppp.tolist(), "hmatrix": H.tolist(),
+                                               "positions": pos.tolist(), "types": types.tolist(), "args": [str(a) for a in args[1:2]]},
+                                    "detail": f"frame {s}, particle {i}: file lists {lst}, expected {want} (nearest first, zero-based)"}
+        return {"ran": True, "failed": False, "searched": 12}
+    finally:
+        shutil.rmtree(tmp, ignore_errors=True)
+
+
+UNITS = [ReadNeighbors(), CutoffNeighbors()]
